@@ -736,6 +736,8 @@ def _dist_diff_interp(repo, rep, R):
         return S('basisT')
       if v == S('T') and attr == 'shape':
         return (N, 3)
+      if v == S('X') and attr == 'shape':
+        return (S('npoints'), S('d'))
       if tg(v) in ('stack', 'sorted') and attr == 'shape':
         return (N * len(v[1]), 2)
       return NotImplemented
@@ -761,6 +763,24 @@ def _dist_diff_interp(repo, rep, R):
           return S('pd', tuple(sorted((a[1], b[1]))), isinstance(op, ast.Sub))
         if tg(a) == 'd' and tg(b) == 'd':
           return S('diff', a[1], b[1], isinstance(op, ast.Sub))
+      # pair (i, j) encoded as i * K + j: injective iff K exceeds every j,
+      # i.e. K is the number of points (or max index + 1), nothing else
+      if isinstance(op, ast.Mult):
+        for x, y in ((a, b), (b, a)):
+          if tg(x) == 'scol' and x[2] == 0:
+            return S('scaled', x[1], y)
+      if isinstance(op, ast.Add):
+        for x, y in ((a, b), (b, a)):
+          if tg(x) == 'scaled' and tg(y) == 'scol' and y[1] == x[1] and \
+                  y[2] == 1:
+            if x[2] not in (S('npoints'),):
+              self.flags.append(
+                  'the pairs of point indices are encoded as i * K + j with '
+                  'K = %s, which is not the number of points: two different '
+                  'pairs get the same code as soon as an index reaches K, '
+                  'and a triplet then receives another pair\'s distances'
+                  % ('the number of triplets' if x[2] == N else repr(x[2])))
+            return S('codes', x[1])
       if isinstance(op, ast.Pow) and b == 2:
         return self._sq(a)
       if isinstance(op, ast.Mult) and a == b:
@@ -791,6 +811,13 @@ def _dist_diff_interp(repo, rep, R):
       if tg(base) == 'uniq' and isinstance(idx, tuple) and \
               idx[0] == full and idx[1] in (0, 1):
         return S('ucol', base[1], idx[1])
+      # the two columns of the stacked pair list (for an integer encoding of
+      # the pairs) and the rows picked by np.unique's first-occurrence index
+      if tg(base) == 'stack' and isinstance(idx, tuple) and \
+              idx[0] == full and idx[1] in (0, 1):
+        return S('scol', base[1], idx[1])
+      if tg(base) == 'stack' and tg(idx) == 'first' and idx[1] == base[1]:
+        return S('uniq', base[1])
       if base == S('XB'):
         i0 = idx[0] if isinstance(idx, tuple) else idx
         rest = idx[1:] if isinstance(idx, tuple) else ()
@@ -818,6 +845,8 @@ def _dist_diff_interp(repo, rep, R):
     def call(self, it, d, recv, args, kwargs, node):
       if d == 'len' and args and args[0] == S('T'):
         return N
+      if d == 'len' and args and args[0] == S('X'):
+        return S('npoints')
       if d.startswith('.'):
         if d == '.dot' and len(args) == 1:
           return self._mm(recv, args[0])
@@ -841,6 +870,15 @@ def _dist_diff_interp(repo, rep, R):
               kwargs.get('axis') == 0 and kwargs.get('return_inverse') and \
               set(kwargs) == {'axis', 'return_inverse'}:
         return (S('uniq', args[0][1]), S('inv', args[0][1]))
+      if short == 'unique' and args and tg(args[0]) == 'codes' and \
+              kwargs.get('return_inverse') and not kwargs.get('axis'):
+        outs = [S('ucodes', args[0][1])]
+        if kwargs.get('return_index'):
+          outs.append(S('first', args[0][1]))
+        outs.append(S('inv', args[0][1]))
+        if kwargs.get('return_counts'):
+          outs.append(S('counts'))
+        return tuple(outs)
       if short in ('square',) and len(args) == 1:
         return self._sq(args[0])
       if short == 'power' and len(args) == 2 and args[1] == 2:
